@@ -177,8 +177,7 @@ static void case_layout(const Args &a, long idx, bool wantDesc, CaseResult &res)
     Digest D; D.s(desc); res.digest = D.h; res.gen = kn[kind]; if (wantDesc) res.desc = desc; res.nontrivial = true;
     int efd = dup(2); int nul = open("/dev/null", O_WRONLY); dup2(nul, 2); close(nul); struct EG { int fd; ~EG() { dup2(fd, 2); close(fd); } } eg{efd};
     auto run = [&](bool reversedAllocation, unsigned char pattern) {
-        churn(R, pattern); std::vector<double> out;
-        vpsc::Rectangle::setXBorder(0); vpsc::Rectangle::setYBorder(0);
+        churn(R, pattern); std::vector<double> out;   // (process-wide state such as Rectangle::xBorder/yBorder is deliberately NOT reset here)
         if (kind == 9) {
             dialect::Graph G; std::vector<dialect::Node_SP> ns; for (int i = 0; i < n; i++) { dialect::Node_SP u = dialect::Node::allocate(); u->setDims(rects[i][2], rects[i][3]); u->setCentre(rects[i][0], rects[i][1]); G.addNode(u); ns.push_back(u); }
             std::set<std::pair<unsigned, unsigned>> seen; for (auto &e : es) { auto k = std::make_pair(std::min(e.first, e.second), std::max(e.first, e.second)); if (seen.insert(k).second) G.addEdge(ns[e.first], ns[e.second]); }
@@ -197,7 +196,14 @@ static void case_layout(const Args &a, long idx, bool wantDesc, CaseResult &res)
     };
     std::vector<double> p1, p2;
     bool rev = a.pl("reverse_allocation", 1) != 0;
-    try { p1 = run(false, 0xFF); p2 = run(rev, 0x11); } catch (std::runtime_error &e) { if (kind == 9) { res.inconclusive = std::string("doHOLA-runtime_error:") + short_what(e.what()); res.nontrivial = false; return; } throw; }
+    // unrelated work between the two runs: another layout that goes through makeFeasible() (which uses non-zero rectangle borders internally)
+    auto unrelated = [&]() {
+        int m = (int)R.ri(3, 10); vpsc::Rectangles rs; std::vector<cola::Edge> ee;
+        for (int i = 0; i < m; i++) { double x = R.rd(0, 60), y = R.rd(0, 60); rs.push_back(new vpsc::Rectangle(x, x + R.rd(5, 20), y, y + R.rd(5, 20))); if (i) ee.push_back(cola::Edge((unsigned)R.ri(0, i - 1), (unsigned)i)); }
+        { cola::ConstrainedFDLayout alg(rs, ee, 40); alg.setAvoidNodeOverlaps(true); set_stage("unrelated:makeFeasible+run"); alg.makeFeasible(); alg.run(); }
+        for (auto r : rs) delete r;
+    };
+    try { p1 = run(false, 0xFF); unrelated(); p2 = run(rev, 0x11); } catch (std::runtime_error &e) { if (kind == 9) { res.inconclusive = std::string("doHOLA-runtime_error:") + short_what(e.what()); res.nontrivial = false; return; } throw; }
     res.count("layouts_compared"); double worst = 0; for (size_t i = 0; i < p1.size(); i++) worst = std::max(worst, std::fabs(p1[i] - p2[i])); res.maxi("largest_position_difference", worst);
     if (worst > 1e-9) res.violate(std::string(kn[kind]) + ":second-run-gives-different-positions", JObj().num("largest_difference", worst).raw("first", jnums(p1)).raw("second", jnums(p2)).raw("case", desc).done());
 }
